@@ -278,7 +278,7 @@ RE_LOCK = re.compile(r"^next_reference_id:\s*(\S+)\s*$", re.M)
 class Rec:
     """Run record of one Breadlog execution."""
     __slots__ = ("argv", "cwd", "rc", "sig", "out", "err", "cpu", "wall", "timed_out", "shim", "trace",
-                 "strace", "rules")
+                 "strace", "rules", "blocked")
 
     def ended(self):
         if self.timed_out:
@@ -348,7 +348,49 @@ def parse_shim(path):
     return [ops[n] for n in sorted(order)]
 
 
-def run_breadlog(built, box, config, check=False, cwd=None, rules=None, shim=False, trace=False,
+def observe_blocked(pid, window=4.0, samples=5):
+    """True iff, at every one of `samples` looks spread over `window` seconds, no thread of the process or of its descendants was
+    runnable or in disk wait and the CPU time of all of them together did not advance by a single tick. The tool waits for nothing
+    outside itself (no network, no terminal, its output is being read), so a process in that state is blocked on itself - a
+    self-deadlock - and not merely slow: a slow process on a loaded machine is runnable (R) or consumes CPU. Decided on process
+    state, not on the clock."""
+    def snap():
+        todo, seen, ticks, states = [pid], set(), 0, []
+        while todo:
+            q = todo.pop()
+            if q in seen:
+                continue
+            seen.add(q)
+            try:
+                for t in os.listdir("/proc/%d/task" % q):
+                    with open("/proc/%d/task/%s/stat" % (q, t)) as f:
+                        st = f.read()
+                    fld = st[st.rindex(")") + 2:].split()
+                    states.append(fld[0])
+                    ticks += int(fld[11]) + int(fld[12])
+                    try:
+                        with open("/proc/%d/task/%s/children" % (q, t)) as f:
+                            todo += [int(x) for x in f.read().split()]
+                    except OSError:
+                        pass
+            except (OSError, ValueError, IndexError):
+                return None
+        return ticks, states
+    first = None
+    for i in range(samples):
+        sn = snap()
+        if sn is None or not sn[1] or any(x != "S" for x in sn[1]):
+            return False
+        if first is None:
+            first = sn[0]
+        elif sn[0] != first:
+            return False
+        if i < samples - 1:
+            time.sleep(window / (samples - 1))
+    return True
+
+
+def run_breadlog(built, box, config, check=False, cwd=None, rules=None, shim=False, trace=False, probe_blocked=None,
                  strace=False, timeout=120, env_extra=None, tmpdir=None, cfg_arg=None, async_signal=None, stdio_ops=False, stdin_tty=False,
                  argv_override=None, wrap=None, read_ops=False, nofile=None, on_first_fire=None):
     """Run the real binary once. config: absolute path of the yaml (cfg_arg overrides what is passed)."""
@@ -361,6 +403,7 @@ def run_breadlog(built, box, config, check=False, cwd=None, rules=None, shim=Fal
            "LANG": "C.UTF-8"}
     rec = Rec()
     rec.rules = rules
+    rec.blocked = False
     rec.shim = rec.trace = rec.strace = None
     shimlog = tracelog = stracelog = None
     if shim or rules:
@@ -436,10 +479,26 @@ def run_breadlog(built, box, config, check=False, cwd=None, rules=None, shim=Fal
                 except ProcessLookupError:
                     pass
                 o, e = p.communicate(timeout=timeout)
+        elif probe_blocked:
+            # (opt-in, for runs without injected delays) look at the process every `probe_blocked` seconds: one that is blocked on
+            # itself is convicted at once instead of after the whole time limit
+            t_end = time.time() + timeout
+            while True:
+                try:
+                    o, e = p.communicate(timeout=min(probe_blocked, max(0.1, t_end - time.time())))
+                    break
+                except subprocess.TimeoutExpired:
+                    if time.time() >= t_end:
+                        raise
+                    if observe_blocked(p.pid):
+                        rec.blocked = True
+                        raise
         else:
             o, e = p.communicate(timeout=timeout)
     except subprocess.TimeoutExpired:
         rec.timed_out = True
+        if not rec.blocked and probe_blocked:
+            rec.blocked = observe_blocked(p.pid)
         p.kill()
         o, e = p.communicate()
     if pty_fds:
